@@ -547,6 +547,8 @@ def ddmin(ops, fails, max_tests=400, budget=240.0):
         chunk = max(1, len(ops) // n)
         reduced = False
         for i in range(0, len(ops), chunk):
+            if time.time() - t0 >= budget or tests[0] >= max_tests:
+                return ops
             cand = ops[:i] + ops[i + chunk:]
             if cand and t(cand):
                 ops = cand
